@@ -22,6 +22,7 @@ pub fn runs(property: &str, tier: Tier) -> u64 {
         "C25" => (2400, 100000),
         "C24" => (640, 16000),
         "C23" => (192, 6000),
+        "C19" => (320, 8000),
         _ => (160, 3000),
     };
     match tier { Tier::Quick => quick, Tier::Thorough => thorough }
@@ -234,6 +235,28 @@ pub fn describe(property: &str) -> Option<serde_json::Value> {
             "assumptions": [
                 "a view is self-consistent unless the injected fault says otherwise",
                 "rsync disabled so that 'not updated' means no data is handed out",
+            ],
+        }))
+    }
+    if property == "C19" {
+        return Some(json!({
+            "engine": "G (rtrnet): the real rtr_listener on loopback sockets \
+                       in a current-thread tokio runtime",
+            "level": "exploration",
+            "rule": "Each run: 3-10 client connections from different \
+                     127.0.0.x source addresses arrive one after the other; \
+                     a seeded subset fails its per-connection setup (hook H9 \
+                     makes the keepalive socket option fail), keepalive \
+                     enabled or disabled, per-client metrics on or off; every \
+                     client sends a Reset Query; the last connection is \
+                     always a working probe. Oracle: every connection whose \
+                     setup did not fail receives a Cache Response within 3 s \
+                     of wall clock (only ever waited for when violated). \
+                     Non-trivial: >=1 failed setup; distinct = (failure \
+                     pattern, keepalive, metrics mode).",
+            "assumptions": [
+                "real loopback TCP: outcome-deterministic, timing is not; \
+                 the bound is generous and elapses only on a violation",
             ],
         }))
     }
